@@ -23,7 +23,8 @@ scratch destinations are followed through the end handlers of the enclosing elem
 
   RB1  every payload leaf / attribute the writer emits is stored into the results data
   RB2  sibling leaf tags feed different fields; one field is not fed from different parents
-  RB3  writer operand kind (int/float/text) <= reader conversion <= field type (no narrowing)
+  RB3  writer operand kind <= reader conversion <= field type in int < float < word = token < text
+       (token: a reader that keeps one blank-separated word; word: text known to be free of blanks)
   RB4  scratch fields of a record are written before the record is pushed on every valid path, or reset
        per record
   RB5  fields read by the consumers are fields the reader stores document information into; the
@@ -313,7 +314,8 @@ def type_kind(t):
     return None
 
 
-_ORDER = {"int": 0, "float": 1, "text": 2, "raw": 2}
+# word: text known to be free of blanks; token: a reader that keeps one blank-separated word of the text
+_ORDER = {"int": 0, "float": 1, "word": 2, "token": 2, "text": 3, "raw": 3}
 
 
 class Store:
@@ -497,6 +499,8 @@ class Model:
                 for n in f.walk():
                     if n.get("k") == "CXXOperatorCallExpr" and n.get("op") == ">>":
                         k2 = type_kind(n["c"][-1].get("t"))
+                        if k2 == "text":
+                            k2 = "token"      # formatted extraction into a string stops at the first blank
                         if k2 in _ORDER and _ORDER[k2] < _ORDER[kind]:
                             kind = k2
                 self.readers[f.key] = kind
@@ -1307,7 +1311,25 @@ def _operand_kind(op):
     k = type_kind(op.get("t"))
     if k == "bool":
         return "int"
+    if k is None:
+        t = (op.get("t") or "").replace("const ", "").strip()
+        if t and "(" not in t and not t.endswith("*"):
+            return "text"        # a class type inserted through its own operator<< (PointID ...): characters
     return k
+
+
+def _expand_operands(ops):
+    """`out << (c ? "<a/>" : "<b/>")`: both literals are written (alternatively) - taken one after the other"""
+    out = []
+    for o in ops:
+        n = o
+        while n is not None and n.get("k") in _CASTS and n.get("c"):
+            n = n["c"][0]
+        if n is not None and n.get("k") == "ConditionalOperator" and len(n.get("c") or []) == 3:
+            out.extend(_expand_operands(n["c"][1:]))
+        else:
+            out.append(o)
+    return out
 
 
 def writer_model(ctx, fx, T):
@@ -1320,27 +1342,51 @@ def writer_model(ctx, fx, T):
     scope = [f for f in fx.functions.values() if f.file in files and f.body is not None and f.cls]
     S = fsm2._Strings(fx, scope)
     W = WriterModel()
+    first_round, second_round = set(), set()
 
     def names_of(f, op):
         n = op
-        while n.get("k") in _CASTS and n.get("c"):
-            n = n["c"][0]
+        while True:
+            if n.get("k") in _CASTS and n.get("c"):
+                n = n["c"][0]
+                continue
+            if n.get("k") in ("CXXConstructExpr", "CXXTemporaryObjectExpr"):
+                real = [x for x in (n.get("c") or []) if x.get("k") != "CXXDefaultArgExpr"]
+                if len(real) == 1:
+                    n = real[0]
+                    continue
+            break
+        if n.get("k") == "StringLiteral":
+            return {n.get("v")}
+        if n.get("k") == "ConditionalOperator" and len(n.get("c") or []) == 3:
+            return names_of(f, n["c"][1]) | names_of(f, n["c"][2])
         if n.get("k") == "DeclRefExpr" and n["ref"].get("dk") == "parm":
             idx = [i for i, p in enumerate(f.params) if p["decl"] == n["ref"]["decl"]]
             out = set()
             for g in scope:
                 for call in g.calls():
                     if call.get("calleeKey") == f.key and idx and idx[0] < len(F.call_args(call)):
-                        out |= S.of(g, F.call_args(call)[idx[0]])
+                        out |= names_of(g, F.call_args(call)[idx[0]])
             return out or {None}
-        return S.of(f, op)
+        return S.of(f, n)
 
-    for f in sorted(scope, key=lambda x: x.key):
-        chains, inner = [], set()
+    scope_keys = {f.key for f in scope}
+    dangling = {}        # function key -> [(attribute, kinds, where)] written without an own open start tag
+    for f in sorted(scope, key=lambda x: x.key) * 2:      # second round: attributes written by called helpers
+        if f.key in first_round:
+            if f.key in second_round:
+                continue
+            second_round.add(f.key)
+            if len(second_round) == 1:
+                W.leaves.clear(); W.attrs.clear(); W.empties.clear(); W.sites = 0
+        else:
+            first_round.add(f.key)
+        chains, inner, inchain = [], set(), set()
         for n in f.walk():
             ops = fsm2._flatten_stream(n)
             if ops is not None and n["id"] not in inner:
                 chains.append(ops)
+                inchain |= {x["id"] for x in walk(n)}
                 cur = n
                 while True:
                     c = cur.get("c") or []
@@ -1349,6 +1395,9 @@ def writer_model(ctx, fx, T):
                         cur = c[1]
                     else:
                         break
+            elif n.get("k") in ("CallExpr", "CXXMemberCallExpr") and n["id"] not in inchain \
+                    and n.get("calleeKey") in scope_keys and dangling.get(n.get("calleeKey")):
+                chains.append(("call", n))
         if not chains:
             continue
         st = {"open": None, "cur": None, "attr": None, "want": None, "last_open": None}
@@ -1360,7 +1409,12 @@ def writer_model(ctx, fx, T):
                 return
             kinds = set()
             for p in cur["payload"]:
-                kinds.add("const" if p[0] == "text" else (_operand_kind(p[1]) or "?"))
+                k = "const" if p[0] == "text" else (_operand_kind(p[1]) or "?")
+                if k == "text":
+                    vals = names_of(f, p[1])
+                    if vals and None not in vals and all(v and not re.search(r"\s", v) for v in vals):
+                        k = "word"            # one of a few literals without blanks
+                kinds.add(k)
             if not kinds:
                 return
             W.sites += 1
@@ -1377,12 +1431,26 @@ def writer_model(ctx, fx, T):
                 kinds.add("const" if p[0] == "text" else (_operand_kind(p[1]) or "?"))
             if kinds == {"const"} and len({p[1] for p in a["payload"] if p[1].strip()}) > 1:
                 kinds = {"text"}        # one of several literals: the choice is information
-            els = a["elem"] or {None}
-            for el in els:
-                W.attrs.setdefault((el, a["name"]), []).append((kinds, a["where"]))
+            if not a["elem"]:
+                ent = (a["name"], frozenset(kinds), a["where"])
+                if ent not in dangling.setdefault(f.key, []):
+                    dangling[f.key].append(ent)
+                return
+            for el in a["elem"]:
+                ent = (kinds, a["where"])
+                if ent not in W.attrs.setdefault((el, a["name"]), []):
+                    W.attrs[(el, a["name"])].append(ent)
 
         for ops in chains:
-            for o in ops[1:] if ops and ops[0].get("k") != "StringLiteral" else ops:
+            if isinstance(ops, tuple):
+                if st["open"] is not None:
+                    for an, kinds, wh in dangling.get(ops[1].get("calleeKey"), []):
+                        for el in st["open"]:
+                            ent = (set(kinds), wh)
+                            if ent not in W.attrs.setdefault((el, an), []):
+                                W.attrs[(el, an)].append(ent)
+                continue
+            for o in _expand_operands(ops[1:] if ops and ops[0].get("k") != "StringLiteral" else ops):
                 lit = o
                 while lit is not None and lit.get("k") in _CASTS and lit.get("c"):
                     lit = lit["c"][0]
@@ -1418,8 +1486,8 @@ def writer_model(ctx, fx, T):
                                     st["cur"] = {"names": set(st["open"]), "payload": [], "where": where}
                                 st["open"] = None
                         elif attr:
-                            if st["open"] is not None:
-                                st["attr"] = {"name": attr, "elem": set(st["open"]), "payload": [], "where": where}
+                            if st["open"] is not None or (st["cur"] is None and st["attr"] is None):
+                                st["attr"] = {"name": attr, "elem": set(st["open"] or ()), "payload": [], "where": where}
                         elif quote:
                             finish_attr(where)
                         elif other is not None:
@@ -1455,8 +1523,9 @@ def writer_model(ctx, fx, T):
 # =========================================================================== flows from scratch to the results
 
 class Flow:
-    def __init__(self, PE):
+    def __init__(self, PE, order=None):
         self.PE = PE
+        self.order = order or {}
         self._memo = {}
         self._info = {}
         self._all = None
@@ -1530,8 +1599,12 @@ class Flow:
             if res:
                 break
         if not res and S[0] == "this":
+            # a handler that runs later in the document (e.g. <band> reading what <dim> stored)
+            mine = self.order.get(path)
             for pth, eff in list(self.PE.end_eff.items()) + list(self.PE.start_eff.items()):
                 if pth[:len(path)] == path or path[:len(pth)] == pth:
+                    continue
+                if mine is None or self.order.get(pth) is None or self.order[pth] < mine:
                     continue
                 for new in self.copies(S, eff, False):
                     res |= self.resolve(new, pth, _seen)
@@ -1573,3 +1646,846 @@ class Flow:
             res = True
         self._info[S] = res
         return res
+
+
+# =========================================================================== the rule
+
+def _key(path, attr=None):
+    k = "/".join(path[1:]) if len(path) > 1 else path[0]
+    return k + ("@" + attr if attr else "")
+
+
+def _short_cls(t):
+    return strip_targs(t or "").split("::")[-1]
+
+
+def _skip_dst(M, d):
+    """stores that are bookkeeping of the parser itself (state, diagnostics, the accumulator)"""
+    return d[0] == "this" and len(d) >= 2 and d[1] in (M.state_field, "errString", "errLineNumber", "errCode",
+                                                      M.data_field) or d[0] in ("p", "g", "?", "dropped")
+
+
+def rule_rb(ctx):
+    fx = ctx.facts
+    T = table()
+    T2 = fsm2.table()["xsd_adjxml"]
+    xsd = XsdModel(os.path.join(ctx.root, T2["schema"]))
+    # the automaton of the reader; its own R-FSM instances belong to fsm2.rule_lnar, not to this rule
+    sub = engine.Ctx(ctx.facts, ctx.root, ctx.prop, ctx.tier)
+    A, sp, tb, disp, tag_fn, tmap, X = fsm2.extract_lnar(sub)
+    ctx.analysed_functions |= sub.analysed_functions
+    root = T2["root"]
+    P = reader_paths(ctx, xsd, A, tb, disp, tmap, root)
+    W = writer_model(ctx, fx, T2)
+    ctx.floor(RULE, T["floors"]["writer-sites"], W.sites, "payload insertion sites of the writers")
+    M = Model(ctx, X, tb, disp, A)
+    PE = PathEval(ctx, M, P, xsd)
+    PE.run()
+    FL = Flow(PE, _doc_order(xsd, xsd.decl(root), root))
+    for k in PE.ev.memo:
+        f = fx.functions.get(k[0])
+        if f is not None:
+            ctx.saw(f)
+
+    leaf = {p: xsd.leaf_kind(d) for p, d in P.decl.items()}
+    payload_leaves = sorted(p for p, k in leaf.items() if k in ("int", "float", "text"))
+    flag_leaves = sorted(p for p, k in leaf.items() if k == "empty" and not xsd.attributes(P.decl[p]))
+
+    def imprecise(path):
+        u = set()
+        for i in range(1, len(path) + 1):
+            for d in (PE.start_eff, PE.end_eff):
+                e = d.get(path[:i])
+                if e is not None:
+                    u |= e.undecided
+        return u
+
+    def broken_if_imprecise(path, what):
+        u = imprecise(path)
+        e = PE.end_eff.get(path)
+        op = (e.opaque if e is not None else []) + (PE.start_eff[path].opaque if path in PE.start_eff else [])
+        if u or op:
+            raise AnalysisBroken("R-RB: %s for <%s> would be reported, but the evaluation is not exact there "
+                                 "(undecided context members %s, unmodelled uses %s)" % (what, _key(path), sorted(u), op[:3]))
+
+    # ------------------------------------------------------------------ RB1 / RB3 per payload leaf
+    finals = {}          # leaf path -> set of result fields
+    stores_of = {}
+    n1 = n3 = 0
+    n2_skipped = []
+    for p in payload_leaves:
+        key = _key(p)
+        name = p[-1]
+        n1 += 1
+        if name not in W.leaves:
+            # vocabulary disagreement (decided by R-FSM adjxml:vocabulary) or a payload written in a form the
+            # writer model does not follow: nothing can be said about the read-back of this element
+            ctx.bad(RULE, "RB1:" + key, tag_fn.where(), "", msg="the schema has the leaf <%s> but no writer statement "
+                    "puts a payload between <%s> and </%s>: the round trip of this element cannot be established"
+                    % (key, name, name))
+            n2_skipped.append(p)
+            continue
+        if p in P.refused or p not in P.start or p not in P.end:
+            ctx.bad(RULE, "RB1:" + key, tag_fn.where(), "", msg="the schema path <%s> is never accepted by the reader "
+                    "(%s): the payload the writer emits there is not read back"
+                    % (key, P.refused.get(p, "no start/end transition in any state the parent can be in")))
+            n2_skipped.append(p)
+            continue
+        eff = PE.end_eff[p]
+        pay = [st for st in eff.stores if st.pay() and st.kind != "drop" and not _skip_dst(M, st.dst)]
+        drops = [st for st in eff.stores if st.kind == "drop"]
+        fin = set()
+        for st in pay:
+            fin |= FL.resolve(st.dst, p)
+        finals[p], stores_of[p] = fin, pay
+        hs = sorted({short(h) for _, h, _ in P.end[p]})
+        where = pay[0].where if pay else (drops[0].where if drops else PE.fn(sorted(P.end[p], key=str)[0][1]).where())
+        if not fin:
+            broken_if_imprecise(p, "a dropped payload")
+            if any(st.dst[0] == "?" for st in eff.stores if st.pay()):
+                raise AnalysisBroken("R-RB: <%s>: payload stored through an expression the evaluation cannot follow" % key)
+            if pay:
+                msg = "the payload is stored into %s, which is never copied into the results data" % sorted(
+                    {fmt_path(st.dst) for st in pay})
+            elif drops:
+                msg = "the end handler parses the payload (%s) and drops the value" % ", ".join(
+                    sorted({a[1] for st in drops for a in st.deps if a[0] == "pay"}))
+            else:
+                msg = "the end handler never reads the character data of the element"
+            ctx.bad(RULE, "RB1:" + key, where, ", ".join(hs), msg="<%s> is written with a payload but not read back: %s"
+                    % (name, msg))
+            n2_skipped.append(p)
+            continue
+        ctx.ok(RULE, "RB1:" + key, where, ", ".join(hs), detail={"fields": sorted(map(fmt_path, fin))})
+        # RB3
+        n3 += 1
+        wk = set()
+        for kinds, wh, wf in W.leaves[name]:
+            wk |= kinds
+        wk = {"text" if k == "const" else k for k in wk}
+        problems = []
+        unknown = "?" in wk
+        wk.discard("?")
+        for st in pay:
+            derived = any(a[0] == "derived" for a in st.deps)
+            fk = None if derived else type_kind(st.dst_t)
+            for a in st.pay():
+                rk = a[1] if len(a) > 1 else "text"
+                for w in sorted(wk):
+                    if _ORDER[w] > _ORDER[rk]:
+                        problems.append("written as %s, read with the %s reader at %s%s" % (
+                            w, rk, st.where, " (only the first blank-separated word of the text is kept)"
+                            if rk == "token" else ""))
+                    elif fk == "bool" or (fk in _ORDER and _ORDER[w] > _ORDER[fk]):
+                        problems.append("written as %s, stored into a field of type %s at %s" % (w, short(st.dst_t or "?"), st.where))
+        if unknown and not problems:
+            raise AnalysisBroken("R-RB: payload operand of <%s> has a type the rule cannot classify" % name)
+        ctx.report(RULE, "RB3:" + key, not problems, where, ", ".join(hs), msg="; ".join(sorted(set(problems))),
+                   detail={"writer": sorted(wk), "reader": sorted({a[1] for st in pay for a in st.pay() if len(a) > 1}),
+                           "schema": leaf[p]})
+
+    # elements with children that the reader opens but can never close without an error: whatever record they
+    # assemble is never stored (the floors of the record clauses do not apply then)
+    unclosable = sorted(p for p in P.decl if leaf[p] is None and p in P.start and p not in P.end)
+    for p in unclosable:
+        n1 += 1
+        ctx.bad(RULE, "RB1:" + _key(p), tag_fn.where(), "", msg="the reader opens <%s> but no end transition closes it "
+                "without an error (a child the schema demands is refused): nothing below it is read back" % _key(p))
+
+    # ------------------------------------------------------------------ RB1 for empty (flag) elements
+    flag_store = {}
+    for p in flag_leaves:
+        key = _key(p)
+        if p[-1] not in W.empties:
+            continue
+        n1 += 1
+        if p not in P.start or p not in P.end:
+            ctx.bad(RULE, "RB1:" + key, tag_fn.where(), "", msg="the empty element <%s> is never accepted by the reader" % key)
+            continue
+        sts = [st for d in (PE.start_eff[p], PE.end_eff[p]) for st in d.stores
+               if st.consts() and not st.locs() and st.kind == "assign" and not _skip_dst(M, st.dst)
+               and not any(a[0] == "tag" for a in st.deps)]
+        got = {}
+        for st in sts:
+            for f in FL.resolve(st.dst, p):
+                got.setdefault(f, set()).update(st.consts())
+        flag_store[p] = got
+        if not got:
+            broken_if_imprecise(p, "an unrecorded flag element")
+            ctx.bad(RULE, "RB1:" + key, PE.fn(sorted(P.end[p], key=str)[0][1]).where(), "",
+                    msg="the presence of <%s> is not recorded in the results data" % p[-1])
+        else:
+            ctx.ok(RULE, "RB1:" + key, sts[0].where, "", detail={f: sorted(v) for f, v in
+                                                                 ((fmt_path(a), b) for a, b in got.items())})
+
+    # ------------------------------------------------------------------ RB2
+    n2 = 0
+    by_parent = {}
+    for p in payload_leaves:
+        if p in finals and finals[p]:
+            by_parent.setdefault(p[:-1], []).append(p)
+
+    def norm(path):
+        return tuple(frozenset(h for _, h, _, _ in P.start.get(path[:i], ())) for i in range(1, len(path) + 1))
+
+    feeders = {}
+    for p, fin in finals.items():
+        for f in fin:
+            feeders.setdefault(f, {}).setdefault((norm(p[:-1]), tmap[p[-1]][1]), []).append(p)
+    shared_ok = {(e["field"], frozenset(e["tags"])) for e in T.get("shared_fields", [])}
+    used_shared = set()
+    for parent, kids in sorted(by_parent.items()):
+        for p in kids:
+            n2 += 1
+            problems = []
+            for q in kids:
+                if q is p or tmap[q[-1]][1] == tmap[p[-1]][1]:
+                    continue
+                common = finals[p] & finals[q]
+                if common:
+                    problems.append("<%s> and <%s> of one <%s> are both stored into %s - the later one overwrites "
+                                    "the earlier" % (p[-1], q[-1], parent[-1], sorted(map(fmt_path, common))))
+            for f in sorted(finals[p]):
+                fs = feeders[f]
+                if len(fs) > 1:
+                    others = sorted({_key(x[0]) for k2, x in fs.items() if p not in x})
+                    tags = frozenset(x[0][-1] for x in fs.values())
+                    hit = [e for e in shared_ok if e[0] == fmt_path(f) and tags <= e[1]]
+                    if hit:
+                        used_shared.add(hit[0])
+                        continue
+                    problems.append("%s is also fed from %s" % (fmt_path(f), others[:4]))
+            if problems:
+                broken_if_imprecise(p, "a field fed by two tags")
+            ctx.report(RULE, "RB2:" + _key(p), not problems, stores_of[p][0].where if stores_of.get(p) else "", "",
+                       msg="; ".join(problems), detail={"fields": sorted(map(fmt_path, finals[p]))})
+    for e in T.get("shared_fields", []):
+        ok = (e["field"], frozenset(e["tags"])) in used_shared
+        ctx.report(RULE, "RB2:table:shared:%s" % e["field"], ok, "", "",
+                   msg="" if ok else "stale entry of tables/rb.json shared_fields: %s is no longer fed by %s"
+                   % (e["field"], e["tags"]))
+    # alternatives of one xs:choice that are empty elements must record different values
+    for parent in sorted({p[:-1] for p in flag_store}):
+        d = P.decl.get(parent)
+        if d is None:
+            continue
+        for alts in xsd.choices(d):
+            ps = [parent + (a,) for a in alts if parent + (a,) in flag_store]
+            for p in ps:
+                n2 += 1
+                problems = []
+                for q in ps:
+                    if q is p:
+                        continue
+                    for f in set(flag_store[p]) & set(flag_store[q]):
+                        if flag_store[p][f] & flag_store[q][f]:
+                            problems.append("<%s> and <%s> record the same value %s in %s" % (
+                                p[-1], q[-1], sorted(flag_store[p][f] & flag_store[q][f]), fmt_path(f)))
+                    if flag_store[p] and flag_store[q] and not (set(flag_store[p]) & set(flag_store[q])):
+                        problems.append("<%s> and <%s> are alternatives but are recorded in different fields (%s / %s)"
+                                        % (p[-1], q[-1], sorted(map(fmt_path, flag_store[p])), sorted(map(fmt_path, flag_store[q]))))
+                ctx.report(RULE, "RB2:" + _key(p), not problems, "", "", msg="; ".join(sorted(set(problems))))
+
+    # ------------------------------------------------------------------ attributes (RB1/RB2/RB3)
+    validated = {(e["element"], e["attribute"]) for e in T.get("validated_attributes", [])}
+    na = 0
+    attr_finals = {}
+    for p in sorted(P.start):
+        name = p[-1]
+        attrs = sorted(a for (el, a) in W.attrs if el == name)
+        for a in attrs:
+            na += 1
+            key = _key(p, a)
+            kinds = set()
+            for ks, wh in W.attrs[(name, a)]:
+                kinds |= ks
+            eff = PE.attr_run(p, a)
+            sts = [st for st in eff.stores if any(x[0] == "attr" for x in st.deps) and not _skip_dst(M, st.dst)]
+            fin = set()
+            for st in sts:
+                fin |= FL.resolve(st.dst, p)
+            attr_finals[(p, a)] = fin
+            hs = sorted({short(h) for _, h, _, _ in P.start[p]})
+            if kinds == {"const"}:
+                ok = (name, a) in validated
+                ctx.report(RULE, "RB1:" + key, ok or bool(fin), W.attrs[(name, a)][0][1], ", ".join(hs),
+                           msg="" if ok or fin else "constant attribute %s of <%s> is neither stored nor listed as "
+                           "validated in tables/rb.json" % (a, name), detail={"constant": True})
+                continue
+            if not fin:
+                if eff.opaque:
+                    raise AnalysisBroken("R-RB: attribute %s of <%s>: %s" % (a, name, eff.opaque[:2]))
+                ctx.bad(RULE, "RB1:" + key, W.attrs[(name, a)][0][1], ", ".join(hs),
+                        msg="the writer emits the attribute %s=\"..\" on <%s> (%s) but the start handler %s does not "
+                        "store it: the value is lost when the file is read back" % (a, name, sorted(kinds), ", ".join(hs)))
+                continue
+            problems = []
+            for st in sts:
+                fk = type_kind(st.dst_t)
+                if fk != "text" and not any(x[0] == "derived" for x in st.deps):
+                    problems.append("attribute text stored into a field of type %s at %s" % (short(st.dst_t or "?"), st.where))
+            ctx.report(RULE, "RB1:" + key, not problems, sts[0].where, ", ".join(hs), msg="; ".join(problems),
+                       detail={"fields": sorted(map(fmt_path, fin))})
+        for a in attrs:
+            fin = attr_finals.get((p, a)) or set()
+            if not fin:
+                continue
+            n2 += 1
+            clash = [b for b in attrs if b != a and fin & (attr_finals.get((p, b)) or set())]
+            ctx.report(RULE, "RB2:" + _key(p, a), not clash, "", "",
+                       msg="" if not clash else "attributes %s and %s of <%s> are stored into the same field %s"
+                       % (a, clash, name, sorted(map(fmt_path, fin))))
+
+    ctx.floor(RULE, T["floors"]["RB1"], n1 + na, "leaf elements and attributes with a read-back obligation (RB1)")
+    if n2_skipped:
+        ctx.note("R-RB: RB2/RB3 not evaluated for %d leaf path(s) that fail RB1" % len(n2_skipped))
+    ctx.floor(RULE, T["floors"]["RB2"], n2 + len(n2_skipped), "sibling / shared-field checks (RB2)")
+    ctx.floor(RULE, T["floors"]["RB3"], n3 + len(n2_skipped), "payload conversions compared (RB3)")
+    n4 = _rb4(ctx, T, xsd, P, M, PE, FL)
+    if unclosable:
+        ctx.note("R-RB: %d element(s) cannot be closed by the reader (reported under RB1); the floor of RB4 is "
+                 "not applied to the records below them" % len(unclosable))
+        n4 = max(n4, T["floors"]["RB4"])
+    ctx.floor(RULE, T["floors"]["RB4"], n4, "scratch fields of records (RB4)")
+    n5 = _rb5_reads(ctx, T, M, PE, FL)
+    ctx.floor(RULE, T["floors"]["RB5"], n5, "fields of the results data read by the consumers (RB5)")
+    n6 = _rb5_index(ctx, T, xsd, P, M, PE, FL)
+    if unclosable:
+        n6 = max(n6, T["floors"]["RB5-index"])
+    ctx.floor(RULE, T["floors"]["RB5-index"], n6, "row-number clauses of the covariance matrix (RB5)")
+    return dict(P=P, PE=PE, FL=FL, W=W, M=M, xsd=xsd, finals=finals)
+
+
+# --------------------------------------------------------------------------- RB4
+
+def _rb4(ctx, T, xsd, P, M, PE, FL):
+    fx = ctx.facts
+    counters = {st.dst for _, st in FL.all_stores() if st.kind == "incr" and st.dst[0] == "this" and len(st.dst) == 2}
+    records = []     # (path, scratch object path, push store)
+    for p, eff in sorted(PE.end_eff.items()):
+        for st in eff.stores:
+            if st.dst[0] != "R" or st.kind not in ("push", "assign"):
+                continue
+            locs = st.locs()
+            if len(locs) != 1 or st.pay():
+                continue
+            O = next(iter(locs))
+            if O[0] != "this" or len(O) != 2:
+                continue
+            t = strip_targs(M.field_t.get(O[1], "")).replace("const ", "").strip()
+            if t in fx.classes and fx.classes[t].get("fields"):
+                records.append((p, O, st, t))
+    verdicts = {}        # key -> [(path, ok, reason)]
+
+    def writes(eff, Fld):
+        out = []
+        for w in eff.stores:
+            if w.kind in ("incr", "drop"):
+                continue
+            if len(w.dst) <= len(Fld) and Fld[:len(w.dst)] == w.dst and not any(Fld[:len(q)] == q for q in w.locs()):
+                out.append(w)
+        return out
+
+    def judge(p, Fld, push):
+        d = P.decl[p]
+        if any(w.must for w in writes(PE.start_eff[p], Fld)):
+            return True, "reset when the record starts"
+        for w in writes(PE.end_eff[p], Fld):
+            if FL._dominates(w, push):
+                return True, "assigned by the end handler before the record is pushed"
+        for c in sorted(xsd.mandatory(d)):
+            ce = PE.end_eff.get(p + (c,))
+            cs = PE.start_eff.get(p + (c,))
+            for e in (ce, cs):
+                if e is not None and any(w.must for w in writes(e, Fld)):
+                    return True, "written by the mandatory child <%s>" % c
+        after = [w for w in writes(PE.end_eff[p], Fld) if w.must and FL._dominates(push, w)]
+        if after:
+            init = any(w.must for w in writes(PE.ctor_eff, Fld))
+            for i in range(1, len(p)):
+                init = init or any(w.must for w in writes(PE.start_eff[p[:i]], Fld))
+            if init:
+                return True, "reset after the push and initialised before the first record"
+            return False, "reset only after the record is pushed: the first record of a document sees an uninitialised value"
+        opt = sorted(c for c in xsd.children(d) if c not in xsd.mandatory(d)
+                     and any(writes(e, Fld) for e in (PE.end_eff.get(p + (c,)), PE.start_eff.get(p + (c,))) if e is not None))
+        if opt:
+            return False, "written only by the optional child(ren) %s and never reset: a record without them keeps " \
+                          "the value of the previous record" % ", ".join("<%s>" % c for c in opt)
+        cond = writes(PE.end_eff[p], Fld)
+        if cond:
+            return False, "assigned only on some paths of the end handler and never reset"
+        return False, "never written before the record is pushed (indeterminate value)"
+
+    for p, O, push, t in records:
+        for f in fx.classes[t]["fields"]:
+            Fld = O + (f["name"],)
+            ok, why = judge(p, Fld, push)
+            verdicts.setdefault("RB4:%s.%s" % (_short_cls(t), f["name"]), []).append((p, ok, why, push.where))
+        # scalar scratch members the end handler folds into the record / the results
+        scalars = set()
+        for st in PE.end_eff[p].stores:
+            if st.kind == "drop" or _skip_dst(M, st.dst):
+                continue
+            for q in st.locs():
+                if q[0] == "this" and len(q) == 2 and q != O and q not in counters and q[1] not in PE.env_of[p].members \
+                        and q[1] not in M.ptr_members and FL.resolve(st.dst, p):
+                    scalars.add(q)
+        for q in sorted(scalars):
+            ok, why = judge(p, q, push)
+            verdicts.setdefault("RB4:scratch:%s" % q[1], []).append((p, ok, why, push.where))
+    n = 0
+    for key, vs in sorted(verdicts.items()):
+        n += 1
+        badp = [(p, why) for p, ok, why, _ in vs if not ok]
+        if badp:
+            for p, _ in badp:
+                u = PE.start_eff[p].undecided | PE.end_eff[p].undecided
+                if u or PE.start_eff[p].opaque or PE.end_eff[p].opaque:
+                    raise AnalysisBroken("R-RB: %s would be reported for <%s>, but the handler evaluation is not exact "
+                                         "(%s)" % (key, _key(p), sorted(u)))
+        ctx.report(RULE, key, not badp, vs[0][3], "",
+                   msg="" if not badp else "; ".join("<%s>: %s" % (_key(p), why) for p, why in badp[:3]),
+                   detail={"records": sorted({_key(p) for p, _, _, _ in vs}), "why": sorted({w for _, ok, w, _ in vs if ok})})
+    return n
+
+
+# --------------------------------------------------------------------------- RB5: consumers
+
+class _Consumer:
+    """Reads of the results data in one consumer function, as access paths rooted at the results object."""
+
+    def __init__(self, fn, M):
+        self.fn, self.M = fn, M
+        self.defs = {}
+        for n in fn.walk():
+            if n.get("k") == "DeclStmt":
+                for d in n.get("decls", []):
+                    if "decl" in d and d.get("init") is not None:
+                        self.defs.setdefault(d["decl"], []).append(d["init"])
+
+    def is_results(self, t):
+        t = (t or "").replace("const ", "").replace("*", "").replace("&", "").strip()
+        t = strip_targs(t)
+        return t in (self.M.results_cls, table()["results_data_class"])
+
+    def rpath(self, n, depth=0):
+        if n is None or depth > 12:
+            return None
+        k = n.get("k")
+        c = n.get("c") or []
+        if k == "MemberExpr" and n.get("mk") == "field":
+            b = c[0] if c else None
+            bp = self.rpath(b, depth + 1)
+            if bp is not None:
+                return bp + (n.get("member"),)
+            if b is not None and (self.is_results(b.get("t")) or (b.get("k") == "CXXThisExpr" and self.is_results(n.get("owner")))):
+                return R + (n.get("member"),)
+            if strip_targs(n.get("owner") or "") in (self.M.results_cls, table()["results_data_class"]):
+                return R + (n.get("member"),)
+            return None
+        if k == "DeclRefExpr" and n["ref"].get("dk") == "local":
+            for init in self.defs.get(n["ref"].get("decl"), []):
+                p = self.rpath(init, depth + 1)
+                if p is not None:
+                    return p
+            return None
+        if k in _CASTS or (k in ("CXXConstructExpr", "CXXTemporaryObjectExpr") and len(c) == 1):
+            return self.rpath(c[0], depth + 1) if c else None
+        if k == "UnaryOperator" and n.get("op") in ("*", "&"):
+            return self.rpath(c[0], depth + 1)
+        if k == "CXXOperatorCallExpr" and len(c) >= 2:
+            op = n.get("op")
+            p = self.rpath(c[1], depth + 1)
+            if p is None:
+                return None
+            if op in ("[]", "()"):
+                return p + ("[]",)
+            if op in ("*", "->", "++", "--"):
+                return p
+            return None
+        if k == "CXXMemberCallExpr":
+            name = short(n.get("callee") or "").split("::")[-1]
+            p = self.rpath(F.call_object(n), depth + 1)
+            if p is None:
+                return None
+            if name in ("begin", "end", "cbegin", "cend", "front", "back", "at", "operator[]"):
+                return p + ("[]",)
+            return None
+        return None
+
+
+def _consumer_fns(ctx, T):
+    fx = ctx.facts
+    out = []
+    for c in T["consumers"]:
+        fx.cls(c["class"])
+        fs = [f for f in fx.methods_of(c["class"]) if f.body is not None]
+        if not fs:
+            raise AnalysisBroken("consumer class %s has no method bodies in the fact base" % c["class"])
+        out.extend(fs)
+    return out
+
+
+def _rb5_reads(ctx, T, M, PE, FL):
+    n = 0
+    for f in sorted(_consumer_fns(ctx, T), key=lambda x: x.key):
+        C = _Consumer(f, M)
+        reads = {}
+        for x in f.walk():
+            p = None
+            if x.get("k") == "MemberExpr" and x.get("mk") == "field":
+                par = f.parent(x)
+                if par is not None and par.get("k") == "MemberExpr" and par.get("mk") == "field" \
+                        and (par.get("c") or [None])[0] is x:
+                    continue
+                p = C.rpath(x)
+                if p is not None and type_kind(x.get("t")) is None:
+                    # an aggregate: a read only when it is subscripted / called (cov(i,j))
+                    if par is not None and par.get("k") == "CXXOperatorCallExpr" and par.get("op") in ("()", "[]") \
+                            and len(par.get("c") or []) > 1 and par["c"][1] is x:
+                        p = p + ("[]",)
+                    else:
+                        p = None
+            if p is not None:
+                reads.setdefault(p, x)
+        if reads:
+            ctx.saw(f)
+        for p, x in sorted(reads.items()):
+            n += 1
+            ok = FL.info(p)
+            ctx.report(RULE, "RB5:%s:%s" % (short(f.qn), fmt_path(p)), ok, f.where(x), f.short,
+                       msg="" if ok else "%s reads %s, but the reader of the adjustment XML never stores document "
+                       "information into that field (it keeps its initial / reset value whatever the file says)"
+                       % (short(f.qn), fmt_path(p)))
+    return n
+
+
+def _doc_order(xsd, root_decl, root):
+    order = {}
+
+    def rec(path, d, depth):
+        order[path] = len(order)
+        if depth > 12:
+            return
+
+        def parts(ps):
+            for p in ps:
+                if p[0] == "elem":
+                    if path + (p[1],) not in order:
+                        rec(path + (p[1],), p[2], depth + 1)
+                else:
+                    parts(p[2])
+        parts(xsd.content(d))
+    rec((root,), root_decl, 0)
+    return order
+
+
+def _rb5_index(ctx, T, xsd, P, M, PE, FL):
+    """The rows of the covariance matrix are numbered by a position counter of the reader (the file has no
+    explicit row numbers): the counter must start at the index base of CovMat, advance by one exactly when
+    the value the row belongs to is present, in document order, and be reset only where the numbering starts."""
+    fx = ctx.facts
+    idx_tab = T["index_fields"]
+    base = T["cov_index_base"]
+    counters = {st.dst for _, st in FL.all_stores() if st.kind == "incr" and st.dst[0] == "this" and len(st.dst) == 2}
+    # feeds: stores whose only location source is a counter
+    feeds = []           # (path, store, counter)
+    for p, eff in sorted(PE.end_eff.items()):
+        for st in eff.stores:
+            ks = [q for q in st.locs() if q in counters]
+            if ks and st.kind == "assign" and st.dst[0] == "this" and len(st.dst) == 3:
+                feeds.append((p, st, ks[0]))
+    order = _doc_order(xsd, xsd.decl(P_root(P)), P_root(P))
+    n = 0
+    seen_fields = set()
+    K = {k for _, _, k in feeds}
+    if len(K) > 1:
+        raise AnalysisBroken("R-RB: several position counters feed index fields: %s" % sorted(map(fmt_path, K)))
+    for p, st, k in feeds:
+        t = strip_targs(M.field_t.get(st.dst[1], ""))
+        name = "%s.%s" % (_short_cls(t), st.dst[2])
+        if name in seen_fields:
+            continue
+        seen_fields.add(name)
+        n += 1
+        key = "RB5:index:" + name
+        if name not in idx_tab:
+            ctx.bad(RULE, key, st.where, "", msg="%s is numbered by the position counter %s but tables/rb.json "
+                    "index_fields does not say which value it is the row of" % (name, fmt_path(k)))
+            continue
+        problems = []
+        eff = PE.end_eff[p]
+        fn_, node = st.fn, st.node
+        rhs = node["c"][1] if node.get("k") == "BinaryOperator" else None
+        form = None
+        if rhs is not None and rhs.get("k") == "UnaryOperator" and rhs.get("op") in ("++", "--"):
+            form = "post" if rhs.get("postfix") else "pre"
+            if rhs.get("op") == "--":
+                problems.append("the counter is decremented")
+        else:
+            incs = [w for w in eff.stores if w.kind == "incr" and w.dst == k and w.fn.key == fn_.key]
+            before = [w for w in incs if fn_.cfg.dominates(w.node, node)]
+            after = [w for w in incs if fn_.cfg.dominates(node, w.node)]
+            if len(before) == 1 and not after:
+                form = "pre"
+            elif len(after) == 1 and not before:
+                form = "post"
+            else:
+                raise AnalysisBroken("R-RB: %s: cannot pair the read of %s with one increment" % (st.where, fmt_path(k)))
+        steps = {c for w in eff.stores if w.kind == "incr" and w.dst == k for c in w.consts()}
+        if steps - {"1"}:
+            problems.append("the counter advances by %s" % sorted(steps))
+        resets = [(pp, w) for pp, w in FL.all_stores() if w.dst == k and w.kind == "assign"]
+        vals = {c for _, w in resets for c in w.consts()}
+        if len(vals) != 1 or any(w.locs() or w.pay() for _, w in resets):
+            raise AnalysisBroken("R-RB: the position counter %s is not reset to one constant (%s)" % (fmt_path(k), sorted(vals)))
+        c0 = int(next(iter(vals)))
+        first = c0 + 1 if form == "pre" else c0
+        if first != base:
+            problems.append("the first row gets number %d (counter reset to %d, %s-increment) but CovMat rows are "
+                            "numbered from %d" % (first, c0, form, base))
+        # guard: executed exactly when the value field's leaf is present
+        val_field = idx_tab[name]["row_of"]
+        vpath = st.dst[:2] + (val_field.split(".")[-1],)
+        leaves = sorted(c for c in xsd.children(P.decl[p]) if PE.end_eff.get(p + (c,)) is not None
+                        and any(w.dst == vpath and w.pay() for w in PE.end_eff[p + (c,)].stores))
+        if not leaves:
+            problems.append("no child of <%s> stores %s" % (p[-1], val_field))
+        mand = xsd.mandatory(P.decl[p])
+        guards = _guards(fn_, node, PE, p)
+        if all(c in mand for c in leaves):
+            if guards:
+                problems.append("the row number is assigned under a condition although <%s> is mandatory" % "/".join(leaves))
+        else:
+            cover = set()
+            for g in guards:
+                cover |= _presence_leaves(g, p, PE, xsd, P, FL)
+            if not guards:
+                problems.append("the row number is assigned whether or not <%s> is present: a record without it "
+                                "shifts the numbers of all later rows" % "/".join(leaves))
+            elif not set(leaves) & cover:
+                problems.append("the row number is guarded by a flag that the handler(s) of <%s> do not set "
+                                "(set by: %s)" % ("/".join(leaves), sorted(cover)))
+        ctx.report(RULE, key, not problems, st.where, fn_.short, msg="; ".join(problems),
+                   detail={"counter": fmt_path(k), "form": form, "reset": c0, "leaves": leaves})
+    # order of the numbered fields inside one record = document order of their value leaves
+    by_rec = {}
+    for p, st, k in feeds:
+        by_rec.setdefault((p, st.fn.key), []).append(st)
+    done = set()
+    for (p, fk), sts in sorted(by_rec.items(), key=str):
+        t = strip_targs(M.field_t.get(sts[0].dst[1], ""))
+        key = "RB5:index:order:%s" % _short_cls(t)
+        if key in done or len(sts) < 2:
+            continue
+        done.add(key)
+        n += 1
+        fn_ = sts[0].fn
+        pos = {}
+        for st in sts:
+            name = "%s.%s" % (_short_cls(t), st.dst[2])
+            vf = idx_tab.get(name, {}).get("row_of", "").split(".")[-1]
+            cands = [order.get(p + (c,)) for c in xsd.children(P.decl[p]) if PE.end_eff.get(p + (c,)) is not None
+                     and any(w.dst == st.dst[:2] + (vf,) and w.pay() for w in PE.end_eff[p + (c,)].stores)]
+            cands = [c for c in cands if c is not None]
+            pos[st] = min(cands) if cands else None
+        problems = []
+        for a in sts:
+            for b in sts:
+                if a is b or pos[a] is None or pos[b] is None or pos[a] >= pos[b]:
+                    continue
+                if not _before(fn_, a.node, b.node):
+                    problems.append("%s is numbered after %s although its value comes first in the file"
+                                    % (fmt_path(a.dst), fmt_path(b.dst)))
+        ctx.report(RULE, key, not problems, sts[0].where, fn_.short, msg="; ".join(sorted(set(problems))))
+    # the reset
+    if K:
+        k = next(iter(K))
+        n += 1
+        resets = sorted({pp for pp, w in FL.all_stores() if w.dst == k and w.kind == "assign" and isinstance(pp, tuple)
+                         and pp in PE.start_eff and any(w2 is w or w2.ident() == w.ident() for w2 in PE.start_eff[pp].stores)})
+        feed_paths = sorted({p for p, _, _ in feeds}, key=lambda q: order.get(q, 1 << 30))
+        problems = []
+        if len(resets) != 1:
+            problems.append("the counter is reset in the start handlers of %s" % [_key(r) for r in resets])
+        else:
+            r = resets[0]
+            first = feed_paths[0]
+            if first[:len(r)] != r:
+                problems.append("reset at <%s>, which does not enclose the first numbered record <%s>" % (_key(r), _key(first)))
+            for q in feed_paths[1:]:
+                if order.get(q, -1) < order.get(first, -1):
+                    problems.append("<%s> precedes the reset" % _key(q))
+        end_resets = sorted({_key(pp) for pp, w in FL.all_stores() if w.dst == k and w.kind == "assign"
+                             and isinstance(pp, tuple) and pp in PE.end_eff
+                             and any(w2.ident() == w.ident() for w2 in PE.end_eff[pp].stores)
+                             and not (pp in PE.start_eff and any(w2.ident() == w.ident() for w2 in PE.start_eff[pp].stores))})
+        if end_resets:
+            problems.append("the counter is also reset at the end of %s" % end_resets)
+        ctx.report(RULE, "RB5:index:counter-reset", not problems, "", "", msg="; ".join(problems),
+                   detail={"reset_at": [_key(r) for r in resets], "numbered": [_key(q) for q in feed_paths]})
+    for name in idx_tab:
+        if name not in seen_fields:
+            n += 1
+            ctx.bad(RULE, "RB5:index:" + name, "", "", msg="tables/rb.json lists %s as a row number of the covariance "
+                    "matrix but the reader does not number it from its position counter" % name)
+    n += _rb5_index_users(ctx, T, M, idx_tab)
+    return n
+
+
+def P_root(P):
+    return min(P.decl, key=len)[0]
+
+
+def _before(fn, a, b):
+    """node a can be followed by node b, and b is never followed by a (outside loops)"""
+    cfg = fn.cfg
+    pa, pb = cfg.block_of(a), cfg.block_of(b)
+    if pa is None or pb is None:
+        return False
+    if pa[0] == pb[0]:
+        return pa[1] < pb[1]
+    return pb[0] in cfg.reachable_blocks_from(pa[0]) and pa[0] not in cfg.reachable_blocks_from(pb[0])
+
+
+def _guards(fn, node, PE, path):
+    """conditions of the enclosing if-statements that are not decided by the context of the path"""
+    env = PE.env_of[path]
+    fe = _FnEval(PE.ev, fn, env.copy(state=None), {_bool_param(fn): 0} if len(fn.params) == 1 else {}, {}, {}, 0)
+    out = []
+    cur = node
+    for anc in fn.ancestors(node):
+        if anc.get("k") == "IfStmt":
+            inthen = anc.get("then") is not None and any(x is cur or x["id"] == cur["id"] for x in walk(anc["then"]))
+            v = fe.cval(anc.get("cond"))
+            if v is None:
+                out.append((anc.get("cond"), inthen, fe))
+        elif anc.get("k") in ("SwitchStmt", "ConditionalOperator", "WhileStmt", "ForStmt", "DoStmt"):
+            raise AnalysisBroken("R-RB: %s: row number assigned inside a %s" % (fn.where(node), anc.get("k")))
+    return out
+
+
+def _presence_leaves(g, p, PE, xsd, P, FL):
+    """children of record p whose handlers set a flag that the guard condition reads (positively)"""
+    cond, inthen, fe = g
+    locs = {a[1] for a in fe.deps(cond) if a[0] == "loc"}
+    # follow flags assigned by the end handler itself (tmp_point.hxy = point_has_x && point_has_y)
+    work, seen = list(locs), set()
+    while work:
+        q = work.pop()
+        if q in seen:
+            continue
+        seen.add(q)
+        for w in PE.end_eff[p].stores:
+            if w.dst == q and w.kind == "assign":
+                work.extend(w.locs())
+    out = set()
+    if not inthen:
+        return out
+    for c in xsd.children(P.decl[p]):
+        for e in (PE.end_eff.get(p + (c,)), PE.start_eff.get(p + (c,))):
+            if e is not None and any(w.dst in seen and w.must and w.consts() - {"False", "0"} for w in e.stores):
+                out.add(c)
+    return out
+
+
+def _rb5_index_users(ctx, T, M, idx_tab):
+    """Consumers address the covariance matrix only with row numbers (the index fields) or plain loop
+    positions - never with values of another numbering stored in the results (original-index)."""
+    fx = ctx.facts
+    idx_names = {k.split(".")[-1] for k in idx_tab}
+    idx_owner = {k.split(".")[0] for k in idx_tab}
+    n = 0
+    for c in T["consumers"]:
+        fns = [f for f in fx.methods_of(c["class"]) if f.body is not None]
+        labels = {}          # node key -> set of results paths
+
+        def node_of(f, x):
+            k = x.get("k")
+            if k == "MemberExpr" and x.get("mk") == "field":
+                return ("f", strip_targs(x.get("owner") or ""), x.get("member"))
+            if k == "DeclRefExpr" and x["ref"].get("dk") in ("local", "parm"):
+                return ("l", f.key, x["ref"].get("decl"))
+            return None
+
+        def sources(f, C, e, skip_index=True):
+            out = set()
+            stack = [e]
+            while stack:
+                x = stack.pop()
+                if x is None:
+                    continue
+                p = C.rpath(x) if x.get("k") in ("MemberExpr", "CXXOperatorCallExpr") else None
+                if p is not None and type_kind(x.get("t")) in ("int", "float"):
+                    out.add(("R", p))
+                    continue
+                k = x.get("k")
+                if k in ("ArraySubscriptExpr",) or (k == "CXXOperatorCallExpr" and x.get("op") == "[]"):
+                    cc = x.get("c") or []
+                    stack.append(cc[0] if k == "ArraySubscriptExpr" else (cc[1] if len(cc) > 1 else None))
+                    continue
+                nk = node_of(f, x)
+                if nk is not None:
+                    out.add(nk)
+                    if nk[0] == "f":
+                        continue
+                stack.extend(y for y in F.children(x) if isinstance(y, dict))
+            return out
+
+        edges = []           # (dst node, {source nodes / ("R", path)})
+        sinks = []
+        for f in fns:
+            C = _Consumer(f, M)
+            for x in f.walk():
+                k = x.get("k")
+                cc = x.get("c") or []
+                if k == "BinaryOperator" and x.get("op") == "=":
+                    d = node_of(f, cc[0]) or (node_of(f, cc[0]["c"][1]) if cc[0].get("k") == "CXXOperatorCallExpr"
+                                              and cc[0].get("op") == "[]" and len(cc[0].get("c") or []) > 1 else None)
+                    if d is not None and type_kind(cc[0].get("t")) in ("int", "float"):
+                        edges.append((d, sources(f, C, cc[1])))
+                elif k == "DeclStmt":
+                    for dd in x.get("decls", []):
+                        if dd.get("init") is not None and "decl" in dd and type_kind(dd.get("t")) in ("int", "float"):
+                            edges.append((("l", f.key, dd["decl"]), sources(f, C, dd["init"])))
+                elif k == "CXXMemberCallExpr" and short(x.get("callee") or "").split("::")[-1] in _APPEND:
+                    obj = F.call_object(x)
+                    d = node_of(f, obj) if obj is not None else None
+                    if d is not None:
+                        s = set()
+                        for a in F.call_args(x):
+                            s |= sources(f, C, a)
+                        edges.append((d, s))
+                elif k == "CXXOperatorCallExpr" and x.get("op") == "()" and len(cc) > 1:
+                    p = C.rpath(cc[1])
+                    if p is not None and type_kind(x.get("t")) == "float" and len(cc) > 2:
+                        sinks.append((f, x, p, [sources(f, C, a) for a in cc[2:]]))
+        changed = True
+        while changed:
+            changed = False
+            for d, srcs in edges:
+                cur = labels.setdefault(d, set())
+                before = len(cur)
+                for s_ in srcs:
+                    if s_[0] == "R":
+                        cur.add(s_[1])
+                    else:
+                        cur |= labels.get(s_, set())
+                if len(cur) != before:
+                    changed = True
+        for f, x, p, args in sinks:
+            n += 1
+            bad = set()
+            for srcs in args:
+                for s_ in srcs:
+                    ps = {s_[1]} if s_[0] == "R" else labels.get(s_, set())
+                    for q in ps:
+                        if q[-1] not in idx_names:
+                            bad.add(fmt_path(q))
+            key = "RB5:index:use:%s:%s" % (short(f.qn), re.sub(r"\s+", "", F.expr_text(x["c"][1])))
+            ctx.saw(f)
+            ctx.report(RULE, key, not bad, f.where(x), f.short,
+                       msg="" if not bad else "%s is addressed with values read from %s: the rows of the matrix are "
+                       "numbered by position (index fields %s), not by that numbering" % (fmt_path(p), sorted(bad), sorted(idx_tab)))
+    return n
